@@ -149,7 +149,10 @@ def gen_random(rng):
             ops.append(["adjust"])
     if ops[-1][0] != "adjust":
         ops.append(["adjust"])
-    return {"children": children, "script": script, "default": default, "ops": ops}
+    case = {"children": children, "script": script, "default": default, "ops": ops}
+    if rng.random() < 0.2:
+        case["prior"] = rng.choice([2, 3, 5])
+    return case
 
 
 def gen_cases(rng, n):
@@ -157,6 +160,9 @@ def gen_cases(rng, n):
     for c in itertools.chain(corpus(), exhaustive()):
         k += 1
         yield c
+    for c in itertools.islice(corpus(), 6):
+        k += 1
+        yield dict(c, prior=3)
     for _ in range(max(0, n - k)):
         yield gen_random(rng)
 
@@ -231,6 +237,28 @@ def run_impl(case):
         refs[c.num] = c
         return c
 
+    prior = None
+    if case.get("prior"):
+        # another FactoryPool of the same process that has grown and shrunk before; its released children are
+        # still alive (draining): pools do not share children, dead or alive
+        made = []
+
+        def prior_factory():
+            made.append(Child(1000 + len(made), F(1), F(1), F(1), F(1)))
+            return made[-1]
+        p0 = FactoryPool(factory=prior_factory, interval=1)
+
+        async def prior_life():
+            async with trio.open_nursery() as nursery:
+                nursery.start_soon(p0.run)
+                await trio.sleep(0.5)
+                p0.demand = case["prior"]
+                await trio.sleep(1)
+                p0.demand = 1
+                await trio.sleep(1)
+                nursery.cancel_scope.cancel()
+        trio.run(prior_life, clock=trio.testing.MockClock(autojump_threshold=0))
+        prior = (p0, made)
     pool = FactoryPool(*[refs[i] for i in range(n0)], factory=factory, interval=1)
     obs = [_observe(pool, calls)]
     cops = []           # the concrete operations that were carried out
@@ -264,7 +292,7 @@ def run_impl(case):
                 if not dead:
                     continue
                 num = dead[op[1] % len(dead)]
-                del refs[num]
+                refs.pop(num, None)
                 # children are not part of reference cycles: dropping the last strong reference frees
                 # them at once; a full collection (slow on the driver's large heap) is the fallback
                 if any(c.num == num for c in pool._mortuary):
@@ -296,6 +324,7 @@ def run_impl(case):
         kinds = sorted({type(x).__name__ for x in leaves(err)})
         ending[0] = "assertion" if kinds == ["AssertionError"] else "other:" + ",".join(kinds)
         obs.append(_observe(pool, calls))
+    del prior
     return {"obs": obs, "ops": cops, "end": ending[0]}
 
 
